@@ -148,10 +148,10 @@ struct LzhDrain : Family {
 		if (o != OkOut) ctx.fail("C04.equals-reference", "constructing the decompressor over " + std::to_string(in.bytes.size()) + " bytes failed: " + what);
 		size_t calls = 0;
 		size_t cloneAt = (mix64(plan.seed, 0xC0) % 3 == 0) ? 1 + static_cast<size_t>(mix64(plan.seed, 0xC1) % 12) : SIZE_MAX;
-		size_t lastRequested = 0; // bytes asked for by the most recent call (0 for the internal-buffer interface)
+		size_t lastRequested = 0; // upper bound on the decoded bytes the most recent call could lose if it fails
 		auto step = [&](const Line& op) {
 			++calls;
-			lastRequested = op.verb == "getbuf" ? 0 : static_cast<size_t>(std::min<uint64_t>(op.u("n", 1), 1u << 20));
+			lastRequested = op.verb == "getbuf" ? 4096 : std::max<size_t>(4096, static_cast<size_t>(std::min<uint64_t>(op.u("n", 1), 1u << 20))); // what a failing call may lose: what it was asked for, or a window's worth it had decoded
 			if (calls == cloneAt) {
 				// value semantics: the decoder in use is replaced by a copy of itself (the original is destroyed) or by one moved out
 				// of such a copy; the copy must continue the same byte sequence
@@ -237,23 +237,33 @@ struct LzhDrain : Family {
 			// reached so far plus a gap of at most the sizes asked for by the failed GetData calls - never anything else, never beyond
 			// what the reference decodes up to the capacity point
 			if (D.capacityError) {
-				size_t cursor = got.size();
-				size_t slack = lastRequested;
-				for (size_t q = 0; q < 6; ++q) {
+				// candidate positions of the decoder's read cursor in the reference output (a failed call loses an unknown number of
+				// decoded bytes, at most what it was asked for or a window's worth; a short chunk may match at several places)
+				std::vector<size_t> cand;
+				auto widen = [&](size_t by) {
+					std::vector<size_t> next;
+					size_t reach = 0; bool have = false;
+					for (size_t p0 : cand) { size_t from = have && p0 <= reach ? reach + 1 : p0, to = std::min(p0 + by, D.out.size()); for (size_t q2 = from; q2 <= to; ++q2) next.push_back(q2); if (to >= reach || !have) { reach = to; have = true; } if (next.size() > 3000000) break; }
+					cand.swap(next);
+				};
+				cand.push_back(got.size());
+				widen(lastRequested);
+				bool gaveUp = false;
+				for (size_t q = 0; q < 6 && !gaveUp; ++q) {
 					threw = false; exhausted = false;
 					if (q == 3) callLib(plan, [&] { if constexpr (std::is_copy_constructible<Archive::HuffLZ>::value) { auto c = std::make_unique<Archive::HuffLZ>(*dec); dec = std::move(c); } }, &what);
 					size_t before = got.size();
 					step(pattern[q % pattern.size()]);
-					if (threw) { slack += lastRequested; continue; }
+					if (threw) { widen(lastRequested); if (cand.size() > 3000000) gaveUp = true; continue; }
 					std::vector<uint8_t> chunk(got.begin() + static_cast<long>(before), got.end());
 					got.resize(before);
 					if (chunk.empty()) continue;
-					bool aligned = false;
-					for (size_t g = 0; g <= slack && cursor + g + chunk.size() <= D.out.size(); ++g) {
-						if (memcmp(D.out.data() + cursor + g, chunk.data(), chunk.size()) == 0) { cursor += g + chunk.size(); slack = 0; aligned = true; break; }
-					}
-					if (!aligned) ctx.fail("C04.capacity-error", "after the capacity error was raised the decompressor delivered " + std::to_string(chunk.size()) + " more bytes that are not the reference output at position " + std::to_string(cursor) + " (+ at most " + std::to_string(slack) + " bytes lost in failed calls) - it decoded on, or beyond the " + std::to_string(D.out.size()) + " bytes the reference produces up to the capacity point");
+					std::vector<size_t> next;
+					for (size_t p0 : cand) if (p0 + chunk.size() <= D.out.size() && memcmp(D.out.data() + p0, chunk.data(), chunk.size()) == 0) next.push_back(p0 + chunk.size());
+					if (next.empty()) ctx.fail("C04.capacity-error", "after the capacity error was raised the decompressor delivered " + std::to_string(chunk.size()) + " more bytes that are not reference output at any position it can have reached (" + std::to_string(cand.size()) + " candidates from " + std::to_string(cand.front()) + ") - it decoded on, or beyond the " + std::to_string(D.out.size()) + " bytes the reference produces up to the capacity point");
+					cand.swap(next);
 				}
+				if (gaveUp) ctx.count("probe.post_error_alignment_gave_up");
 				threw = true;
 				ctx.count("probe.requests_after_capacity_error");
 			}
